@@ -31,8 +31,10 @@ evidence/C20.json coverage.facets.<facet>.classes)
  i  volume-response matrix for the requested frame        volmat: frame k of the object == that frame alone (first-frame /
                                                           middle-frame / last-frame, nconfig0..2+, box-of-frame-k-differs-from-
                                                           frame0, second-request on the same object) + independent central
-                                                          differences of the reference volumes (deltar-default, 0.02 .. 0.001,
-                                                          ndim-default); volmat_large N>16
+                                                          differences of the reference volumes with the SAME step, every
+                                                          off-diagonal column (deltar-default, 0.001 .. 0.2, 0.3 x spacing:
+                                                          step<0.05 / step>=0.05; close-pair-0.5 .. 3.5-steps and pair-closer-
+                                                          than-4-steps / pairs-beyond-4-steps; ndim-default); volmat_large N>16
  j  rows sum to zero over each displaced coordinate       |sum_j A[i, (j, c)]| <= 1e-9 N max|A| (self-image-contact /
                                                           no-self-contact)
  Not asserted: the transformed matrix (shape only: A A^T is singular by volume conservation), triclinic boxes (the
@@ -63,7 +65,7 @@ RULE = ("orthogonal periodic boxes with unequal edges (float64, or integer-value
         "clustered; bulk coordinates from numpy default_rng(k) with k drawn by Hypothesis); optional whole-box image "
         "offsets; output names {absolute, relative, with a dot, in a sub-directory}; histories {one call, an older longer "
         "result under the same name, the same Snapshots object refilled in place between two calls}. VolumeMatrix: N "
-        "8..16 (volmat_large: 17..36), 1..4 frames, requested frame index 0..F-1, step {default, 0.02, 0.01, 0.005, 0.001}, "
+        "8..16 (volmat_large: 17..36), 1..4 frames, requested frame index 0..F-1, step {default, 0.001 .. 0.2, 0.3 x mean spacing}, optionally a pair of particles 0.5 .. 3.5 steps apart in the requested frame, "
         "a second request for another frame of the same object. non-trivial = coordination numbers differ between "
         "particles and (origin != 0 or >= 2 frames or image offsets)")
 ASSUMPTIONS = [
@@ -85,8 +87,13 @@ ASSUMPTIONS = [
     "species labels and timestep labels are irrelevant to a tessellation (drawn arbitrarily; one block per frame of the "
     "Snapshots object in its order); every call describes the trajectory passed to it, whatever an earlier call wrote "
     "under the same output name",
-    "VolumeMatrix (boxes with edges <= 8, deltar in {0.02, 0.01 = default, 0.005, 0.001}) is compared with central differences of the float64 "
-    "reference volumes with tolerance 1e-2 of the largest entry + the float32 noise bound 4 d ulp surface/(2 deltar V); "
+    "VolumeMatrix: every configuration displaced by +-deltar along one axis must itself be in general position (no "
+    "particle pushed closer than max(deltar/4, 8 float32 steps, 1e-3 spacings) to another one; such draws are excluded "
+    "and counted) - the tessellation library terminates the process on duplicate points; close pairs are put along a "
+    "body diagonal so that this holds by construction",
+    "VolumeMatrix (boxes with edges <= 8, deltar in {0.01 = default, 0.001 .. 0.2, 0.3 x mean spacing}) is compared with central differences of the float64 "
+    "reference volumes (same step) with tolerance 1e-2 of the largest entry + the float32 noise bound 4 d ulp surface/(2 deltar V) "
+    "+ 4 d ulp surface/(d_min V) for the curvature over the smallest pair distance d_min; "
     "the self term is checked through the row-sum identity only",
 ]
 MANIFEST = {
@@ -680,12 +687,50 @@ def volmat_st(draw, n2=(8, 14), n3=(12, 16), frames=(1, 4)):
     # a "first frame only" slip gets wrong
     case["nconfig"] = T - 1 - draw(st.integers(0, T - 1))
     # step: the documented default (not passed), or an explicit one on either side of it
-    case["deltar"] = draw(st.sampled_from([None, 0.01, 0.001, 0.001, 0.005, 0.02]))
+    case["deltar"] = draw(st.sampled_from([None, None, 0.01, 0.001, 0.005, 0.02, 0.05, 0.1, 0.2, "rel0.3"]))
+    if case["deltar"] == "rel0.3":   # a caller who scales the step with the system: 0.3 x mean spacing
+        ck = case["cells"][case["nconfig"]]
+        case["deltar"] = round(0.3 * float(np.prod(np.diag(ck["H"])) / len(case["types"])) ** (1.0 / d), 3)
+    # a close pair in the requested frame: distance 0.5 .. 3.5 steps (dimers, overlapping soft particles, a collapsed
+    # configuration).  Particle b is put next to particle a along a body diagonal, so that a displaced by +-step along
+    # any axis stays >= 0.7 step away from b (no near-duplicates for the tessellation library).  Only for steps >= 0.005:
+    # the pair must stay beyond 1e-3 mean spacings (general position, float32).
+    step = 0.01 if case["deltar"] is None else case["deltar"]
+    close = draw(st.sampled_from([None, None, 0.5, 1.0, 2.0, 3.5]))
+    N = len(case["types"])
+    a = draw(st.integers(0, N - 1))
+    b = (a + 1 + draw(st.integers(0, N - 2))) % N
+    signs = np.array([draw(st.sampled_from([-1.0, 1.0])) for _ in range(d)])
+    case["close"] = None
+    if close is not None and step >= 0.005:
+        k = case["nconfig"]
+        pk = case["pos"][k].copy()
+        pk[b] = pk[a] + close * step * signs / np.sqrt(d)
+        case["pos"] = [pk if f == k else q for f, q in enumerate(case["pos"])]
+        case["close"] = close
     case["omit_ndim"] = d == 2 and draw(st.booleans())     # ndim = 2 is the documented default
     case["save"] = draw(st.sampled_from([False, True, True]))
     case["savename"] = draw(st.sampled_from(["volmat.npy", "volmat", "vm.raw.dat"]))   # np.save appends .npy
     case["second"] = T >= 2 and draw(st.booleans())        # then also ask for another frame of the same object
     return case
+
+
+def _displaced_min_distance(pos, lo, L, deltar):
+    """Smallest distance (periodic) between a particle displaced by +-deltar along one axis and any other particle;
+    deltar = 0: smallest pair distance of the configuration itself."""
+    q = pos - lo
+    q = q - np.floor(q / L) * L
+    N, d = q.shape
+    best = np.inf
+    for j in range(d):
+        for sgn in ((1.0, -1.0) if deltar else (1.0,)):
+            moved = q.copy()
+            moved[:, j] += sgn * deltar
+            dr = moved[:, None, :] - q[None, :, :]
+            dr -= np.round(dr / L) * L
+            dist = np.sqrt((dr ** 2).sum(-1)) + np.eye(N) * 1e9
+            best = min(best, float(dist.min()))
+    return best
 
 
 def _ref_matrix(pos, lo, L, deltar):
@@ -719,6 +764,14 @@ def check_volmat(case):
     outfile = os.path.join(os.getcwd(), savename) if case["save"] else ""
     written = outfile if outfile.endswith(".npy") else outfile + ".npy"   # numpy.save appends the extension
     deltar = 0.01 if case["deltar"] is None else case["deltar"]           # documented default
+    # domain: every displaced configuration (particle i moved by +-deltar along axis j) must itself be in general
+    # position - a large step may push a particle onto another one, and the tessellation library terminates the
+    # process on (float32) duplicate points
+    spacing = (float(np.prod(L)) / N) ** (1.0 / d)
+    dmin = _displaced_min_distance(case["pos"][k], cellk["lo"], L, deltar)
+    safe = max(0.25 * deltar, 8.0 * _f32_resolution(case["pos"][k], cellk["lo"], L), 1e-3 * spacing)
+    if dmin < safe:
+        return {"nontrivial": False, "tags": ["excluded-displaced-near-coincident", f"d{d}"], "extra": {"excluded": 1}}
     kw = {}
     if case["deltar"] is not None:
         kw["deltar"] = case["deltar"]
@@ -743,9 +796,15 @@ def check_volmat(case):
     A1 = arr("VolumeMatrix(single frame)", VolumeMatrix(single, ndim=d, nconfig=0, deltar=deltar,
                                                         transform_matrix=False), shape=(N, N * d))
     close("matrix for frame k of a trajectory vs that frame alone", A, A1, rtol=1e-9, atol=1e-12 * scale)
-    if case.get("second") and T >= 2:
+    k2 = (k + 1) % T
+    second = bool(case.get("second") and T >= 2)
+    if second:
+        c2 = case["cells"][k2]
+        L2 = np.diag(c2["H"])
+        second = _displaced_min_distance(case["pos"][k2], c2["lo"], L2, deltar) >= max(
+            0.25 * deltar, 8.0 * _f32_resolution(case["pos"][k2], c2["lo"], L2), 1e-3 * (float(np.prod(L2)) / N) ** (1.0 / d))
+    if second:
         # a second request on the same Snapshots object, for another frame: again that frame alone
-        k2 = (k + 1) % T
         A2 = arr("VolumeMatrix(second request)", VolumeMatrix(snaps, d, k2, deltar, False), shape=(N, N * d))
         A2s = arr("VolumeMatrix(single frame, second request)",
                   VolumeMatrix(_snapshots(case, frames=[k2]), ndim=d, nconfig=0, deltar=deltar, transform_matrix=False),
@@ -763,6 +822,9 @@ def check_volmat(case):
     eps = _f32_eps(L, case["pos"][k], cellk["lo"])
     self_touch = any(j == i for i in range(N) for j, _ in rbonds[i])
     noise = 4 * d * eps * surf / (2 * deltar)  # per row, in units of volume per length
+    # close pairs: the derivative itself changes over the pair distance (curvature ~ surface / distance), and the library
+    # evaluates it at float32-rounded positions
+    noise = noise + 4 * d * eps * surf / min(dmin, _displaced_min_distance(case["pos"][k], cellk["lo"], L, 0.0))
     off = np.ones((N, N * d), dtype=bool)
     for i in range(N):
         off[i, d * i:d * i + d] = False
@@ -799,8 +861,13 @@ def check_volmat(case):
             tags.append("box-of-frame-k-differs-from-frame0")
     if case.get("omit_ndim"):
         tags.append("ndim-default")
-    if case.get("second") and T >= 2:
+    if second:
         tags.append("second-request")
+    tags.append("pair-closer-than-4-steps" if _displaced_min_distance(case["pos"][k], cellk["lo"], L, 0.0) < 4 * deltar
+                else "pairs-beyond-4-steps")
+    if case.get("close") is not None:
+        tags.append(f"close-pair-{case['close']}-steps")
+    tags.append("step>=0.05" if deltar >= 0.05 else "step<0.05")
     if case.get("dup"):
         tags.append("frame-stored-twice")
     return {"nontrivial": bool(distinct_frames or case["cell"]["origin"] != "zero"), "tags": tags}
